@@ -10,7 +10,7 @@ An edge `p → x` of the graph is `p ∈ P x` (`P` = the predecessor function).
 -/
 import HvGraphAlg.Proofs.Topo
 import HvGraphAlg.Proofs.UFHistory
-import HvGraphAlg.Proofs.SMRefuse
+import HvGraphAlg.Proofs.SMMerge
 namespace HvGraphAlg
 
 /-! ## `topo_sort` -/
@@ -238,5 +238,69 @@ theorem tryMerge_refused_preserves_Inv {G : Nat → List Nat} {E : List (Nat × 
       rootFn (sm.tryMerge u0 v0).1.uf = rootFn sm.uf :=
   let h' := tryMerge_noop_inv h hu0 hv0 hr
   ⟨h'.1, h'.2.1, h'.2.2.1⟩
+
+/-- `try_merge` preserves the invariant on every call (so groups stay contiguous ranges of a valid
+topological node order, no group contains an enemy pair, and the quotient graph stays acyclic);
+a refused call changes neither the order nor the groups; a successful call joins exactly the two
+classes.  In particular the `expect("bug: cycle check passed but re-toposort found cycle")`, the
+cycle-check fuel and the `topo_sort` fuel are never hit (`.bug` is not an outcome). -/
+theorem tryMerge_preserves_Inv {G : Nat → List Nat} {E : List (Nat × Nat)} {sm : SM} {gs : List (List Nat)}
+    (h : Inv G E sm gs) {u0 v0 : Nat} (hu0 : u0 < sm.n) (hv0 : v0 < sm.n) :
+    ∃ gs', Inv G E (sm.tryMerge u0 v0).1 gs' ∧ (sm.tryMerge u0 v0).1.n = sm.n ∧
+      (((sm.tryMerge u0 v0).2 = .refused ∧ gs' = gs ∧ (sm.tryMerge u0 v0).1.order = sm.order ∧
+          rootFn (sm.tryMerge u0 v0).1.uf = rootFn sm.uf) ∨
+       ((sm.tryMerge u0 v0).2 = .merged ∧ ∀ x y,
+          rootFn (sm.tryMerge u0 v0).1.uf x = rootFn (sm.tryMerge u0 v0).1.uf y ↔
+            (rootFn sm.uf x = rootFn sm.uf y ∨
+              ((rootFn sm.uf x = rootFn sm.uf u0 ∨ rootFn sm.uf x = rootFn sm.uf v0) ∧
+               (rootFn sm.uf y = rootFn sm.uf u0 ∨ rootFn sm.uf y = rootFn sm.uf v0))))) :=
+  tryMerge_inv h hu0 hv0
+
+/-- … hence by induction after every sequence of merge attempts. -/
+theorem merge_sequences_preserve_Inv {G : Nat → List Nat} {E : List (Nat × Nat)}
+    (ops : List (Nat × Nat)) (sm : SM) (gs : List (List Nat)) (h : Inv G E sm gs)
+    (hb : ∀ p ∈ ops, p.1 < sm.n ∧ p.2 < sm.n) :
+    ∃ gs', Inv G E (runMerges sm ops) gs' ∧ (runMerges sm ops).n = sm.n :=
+  runMerges_inv ops sm gs h hb
+
+/-- `new` followed by any sequence of merge attempts: the invariant holds. -/
+theorem new_then_merges_Inv {n : Nat} {G : Nat → List Nat} {E : List (Nat × Nat)} {sm : SM}
+    (hG : ∀ k, k < n → ∀ p ∈ G k, p < n) (hE : ∀ a b, (a, b) ∈ E → a < n ∧ b < n)
+    (h : SM.new n G E = .ok sm) (ops : List (Nat × Nat)) (hb : ∀ p ∈ ops, p.1 < n ∧ p.2 < n) :
+    ∃ gs', Inv G E (runMerges sm ops) gs' := by
+  obtain ⟨hinv, hn⟩ := new_inv hG hE h
+  obtain ⟨gs', h', _⟩ := runMerges_inv ops sm _ hinv (by rw [hn]; exact hb)
+  exact ⟨gs', h'⟩
+
+/-- What the invariant says, spelled out in terms of the node graph:
+the order is a permutation of the nodes; every group is a contiguous block of it (`order =
+gs.flatten`), non-empty, and is exactly one union-find class; no node is listed before one of its
+predecessors; no enemy pair shares a group; and every edge between two groups goes forward in the
+layout (so the quotient graph is acyclic). -/
+theorem inv_meaning {G : Nat → List Nat} {E : List (Nat × Nat)} {sm : SM} {gs : List (List Nat)}
+    (h : Inv G E sm gs) :
+    sm.order.Perm (List.range sm.n) ∧ sm.order = gs.flatten ∧
+    (∀ g ∈ gs, ∃ r rest, g = r :: rest ∧ ∀ x, x ∈ g ↔ (x < sm.n ∧ rootFn sm.uf x = r)) ∧
+    sm.order.Pairwise (fun a b => b ∉ G a) ∧
+    (∀ a b, (a, b) ∈ E → rootFn sm.uf a ≠ rootFn sm.uf b) ∧
+    (∀ a b, QE G sm a b → getN sm.sgIdx a < getN sm.sgIdx b) := by
+  refine ⟨h.perm, h.order_eq, ?_, h.topo, h.apart, fun a b he => h.qe_idx_lt he⟩
+  intro g hg
+  obtain ⟨r, rest, hg', hrep⟩ := h.layout.group g hg
+  refine ⟨r, rest, hg', fun x => ⟨fun hx => ⟨h.group_mem_lt hg hx, hrep x hx⟩, fun hx => ?_⟩⟩
+  rw [hg']
+  exact h.mem_group (hg' ▸ hg) hx.1 hx.2
+
+-- non-vacuity: the triangle `0 → 1 → 2, 0 → 2`: `merge 0 2` is refused (cycle through 1),
+-- `merge 0 1` succeeds; two unrelated enemies are refused
+example : (match SM.new 3 (fun k => [[], [0], [0, 1]].getD k []) [] with
+    | .ok sm => (sm.tryMerge 0 2).2
+    | _ => .bug) = .refused := by decide
+example : (match SM.new 3 (fun k => [[], [0], [0, 1]].getD k []) [] with
+    | .ok sm => ((sm.tryMerge 0 1).2, (sm.tryMerge 0 1).1.subgraphs)
+    | _ => (.bug, none)) = (.merged, some [[0, 1], [2]]) := by decide
+example : (match SM.new 2 (fun _ => []) [(0, 1)] with
+    | .ok sm => (sm.tryMerge 0 1).2
+    | _ => .bug) = .refused := by decide
 
 end HvGraphAlg
